@@ -354,6 +354,15 @@ def run_property(prop, obligations, tier, seed=0, workers=None, assumptions=(), 
                 by_code.setdefault(code, []).append((ci, path, res))
             for code, lst in by_code.items():
                 lst.sort()
+                if code.startswith("EXC:") and "@harness:" in code:
+                    # exception raised by a line of the harness / a stub, not by the code under test: the machinery does not
+                    # fit the tree (e.g. it reads a private attribute that was renamed); never a VIOLATION
+                    f = fails[code][0]
+                    harness_errors.append("%s: the harness itself raised %s: %s %s" % (ob.name, code, f["msg"][:300], f.get("tb", "")[-500:]))
+                    for ci, path, res in lst:
+                        if os.path.exists(path):
+                            os.remove(path)
+                    continue
                 reproduced = [(ci, path, res) for ci, path, res in lst if res and res.get("outcome") == "fail"]
                 keep = reproduced[0][1] if reproduced else None
                 for ci, path, res in lst:
